@@ -28,7 +28,7 @@ def gen_script(rnd, tier):
             if rnd.random() < 0.35:
                 did[0] += 1
                 at.append("%s:%d" % (nm, did[0]))
-        tg = ["%s:%d" % (t, rnd.choice([0, 0, 1, 2, 3])) for t in TAGS if rnd.random() < 0.35]
+        tg = ["%s:%d" % (t, rnd.choice([0, 0, 1, 2, 3, 999])) for t in TAGS if rnd.random() < 0.35]
         iv = []
         for _ in range(rnd.choice([0, 0, 1, 1, 2])):
             kid[0] += 1
